@@ -14,7 +14,8 @@ void report(const std::vector<std::string>& errs, const std::string& what, const
 bool checkNow(NifFile& nif, NiShape* s, bool cover, const std::string& what, const char* after) {
 	R_eval();
 	long tc = 0;
-	auto errs = checkPartitions(nif, s, cover, &tc);
+	bool rebuilt = std::string(after).find("UpdateSkinPartitions") != std::string::npos && std::string(after).find("reload") == std::string::npos;
+	auto errs = checkPartitions(nif, s, cover, &tc, true, rebuilt);
 	R_stat("triangles_checked", tc);
 	report(errs, what, after);
 	return errs.empty();
